@@ -257,6 +257,10 @@ def apply_prepared(root, op, prepared):
             return ('ok', None)
         if k == 'call':
             target = getattr(recv, op['attr']) if op.get('attr') else recv
+            if op.get('iadd') and op.get('attr'):
+                # the statement `model.attr += batch`: in-place extend, then the result assigned back through the property
+                setattr(recv, op['attr'], target.__iadd__(*args))
+                return ('ok', None)
             r = getattr(target, op['m'])(*args)
             return ('ok', r)
         if k == 'setitem':
@@ -615,7 +619,8 @@ def _gen_list_op(r, root, path, m, attr, tys, sp, malformed, raw=True):
         vs = [val() for _ in range(r.choice([0, 1, 2, 3]))]
         if any(v is None for v in vs):
             return None
-        return {'k': 'call', 'kind': 'rep-extend', 'm': 'extend', 'args': [{'t': 'list', 'items': vs, 'as': _batch_shape(r)}], **base_op}
+        return {'k': 'call', 'kind': 'rep-extend', 'm': 'extend', 'args': [{'t': 'list', 'items': vs, 'as': _batch_shape(r)}],
+                **({'iadd': True} if r.random() < 0.35 else {}), **base_op}
     if c < 0.915:
         if raw and r.random() < 0.7 and hasattr(w, 'drop_many'):
             # the bulk delete: any iterable of indexes - negative ones, repeated ones, in any order; out of range = refused
@@ -720,7 +725,8 @@ def _gen_view_op(r, root, path, m, name, sp, malformed):
         vs = [mk() for _ in range(r.choice([0, 1, 2]))]
         if any(v is None for v in vs):
             return None
-        return {'k': 'call', 'kind': 'view-extend', 'm': 'extend', 'args': [{'t': 'list', 'items': vs, 'as': _batch_shape(r)}], **base_op}
+        return {'k': 'call', 'kind': 'view-extend', 'm': 'extend', 'args': [{'t': 'list', 'items': vs, 'as': _batch_shape(r)}],
+                **({'iadd': True} if r.random() < 0.35 else {}), **base_op}
     if c < 0.95:
         return {'k': 'call', 'kind': 'view-clear', 'm': 'clear', 'args': [], **base_op}
     if name in _VIEW_ELEM:
